@@ -414,7 +414,7 @@ Qed.
 (* ---- histories *)
 Lemma step_durable s e : durable (s_disk s) -> durable (s_disk (step tag s e)).
 Proof.
-  intros Hd. destruct e as [now fe fl|now fe fl k cfg' tr|cfg' tr]; cbn in *.
+  intros Hd. destruct e as [now fe fl|now fe fl k cfg' tr sr|cfg' tr sr]; cbn in *.
   - unfold run_of. rewrite r_disk_writes.
     destruct (run_keeps (s_live s) (s_cfg s) (s_disk s) now fe fl Hd) as [_ H].
     specialize (H (length (r_writes (autota tag (s_live s) (s_cfg s) (s_disk s) now fe fl)))).
@@ -432,15 +432,27 @@ Qed.
 Lemma exec_app h1 h2 s : exec tag s (h1 ++ h2) = exec tag (exec tag s h1) h2.
 Proof. unfold exec. apply fold_left_app. Qed.
 
-(* NewResolver: a key whose material is in the tombstone file is not in the start-up trust set *)
-Lemma restart_live_excludes cfg d tr key : durable_tomb d -> In key (restart_live cfg d tr) -> k_mat key <> m.
+(* NewResolver: a key whose material is recorded as revoked on disk — tombstone or marker — is not
+   in the start-up trust set *)
+Lemma restart_live_excludes cfg d tr sr key : durable d -> In key (restart_live cfg d tr sr) -> k_mat key <> m.
 Proof.
-  intros (tb & Htb & Hmem) Hin E. unfold restart_live in Hin. destruct tr; [|destruct Hin|destruct Hin].
-  apply filter_In in Hin. destruct Hin as [_ Hf]. rewrite Htb, E, Hmem in Hf. rewrite andb_false_r in Hf. discriminate.
+  intros Hd Hin E. unfold restart_live in Hin. destruct tr; [|destruct Hin|destruct Hin].
+  destruct sr; [destruct Hin|].
+  apply filter_In in Hin. destruct Hin as [_ Hf].
+  assert (Hm : mem m (migrate (match d_state d with Some s => s | None => [] end)
+                              (match d_tomb d with Some t => t | None => [] end)) = true).
+  { destruct Hd as [(tb & Htb & Hmem)|(s & Hs & Hmk)].
+    - apply migrate_mono. rewrite Htb. exact Hmem.
+    - apply has_marker_in in Hmk. destruct Hmk as (t & a & Hi & Hmat & Hma).
+      rewrite Hs. eapply migrate_marker; eassumption. }
+  rewrite E, Hm in Hf. rewrite andb_false_r in Hf. discriminate.
 Qed.
 
-Lemma restart_live_sub cfg d tr key : In key (restart_live cfg d tr) -> In key cfg.
-Proof. unfold restart_live. destruct tr; [|intros []|intros []]. intros H. apply filter_In in H. apply H. Qed.
+Lemma restart_live_sub cfg d tr sr key : In key (restart_live cfg d tr sr) -> In key cfg.
+Proof.
+  unfold restart_live. destruct tr; [|intros []|intros []]. destruct sr; [intros []|].
+  intros H. apply filter_In in H. apply H.
+Qed.
 
 End Rev.
 
@@ -452,33 +464,28 @@ Lemma revocation_permanent_lemma :
     forall s1,
     (* ... and either completes with at least one file replaced, or the process dies after k >= 1 replacements *)
     ((s1 = step tag s (ERun now fe fl) /\ r_writes (run_of tag s now fe fl) <> []) \/
-     (exists k cfg' tr, s1 = step tag s (ECrash now fe fl k cfg' tr) /\ firstn k (r_writes (run_of tag s now fe fl)) <> [])) ->
-    (* then for EVERY continuation: runs with any responses, clocks, read and write faults, crashes at
-       any prefix, restarts with any configuration and any start-up read fault *)
+     (exists k cfg' tr sr, s1 = step tag s (ECrash now fe fl k cfg' tr sr) /\ firstn k (r_writes (run_of tag s now fe fl)) <> [])) ->
+    durable m (s_disk s1) /\
+    (* then after EVERY later event of EVERY continuation — runs with any responses, clocks, read and
+       write faults, crashes at any prefix, restarts with any configuration and any start-up read fault *)
     forall h e,
-      let sb := exec tag s1 h in            (* state before the last event *)
-      let s' := step tag sb e in            (* state after it *)
-      durable m (s_disk s') /\
-      (forall key, In key (s_live s') -> k_mat key = m ->
-         (* the only way back into the live set: a (re)start while the tombstone file does not hold m
-            (the record is still only the StateRevoked marker) with m's key in the configuration *)
-         (exists cfg' tr, (e = ERestart cfg' tr \/ exists now' fe' fl' k, e = ECrash now' fe' fl' k cfg' tr) /\
-                          In key cfg' /\ ~ durable_tomb m (s_disk s'))).
+      let s' := step tag (exec tag s1 h) e in
+      durable m (s_disk s') /\ (forall key, In key (s_live s') -> k_mat key <> m).
 Proof.
-  intros tag m s now fe fl Hacc s1 Hs1 h e sb s'.
+  intros tag m s now fe fl Hacc s1 Hs1.
   assert (Hd1 : durable m (s_disk s1)).
-  { destruct Hs1 as [[-> Hne]|(k & cfg' & tr & -> & Hne)]; cbn.
+  { destruct Hs1 as [[-> Hne]|(k & cfg' & tr & sr & -> & Hne)]; cbn.
     - unfold run_of in *. rewrite r_disk_writes.
       pose proof (run_accepts tag m (s_live s) (s_cfg s) (s_disk s) now fe fl
                     (length (r_writes (autota tag (s_live s) (s_cfg s) (s_disk s) now fe fl))) Hacc) as H.
       rewrite firstn_all in H. apply H. exact Hne.
     - unfold run_of in *. apply run_accepts; assumption. }
-  assert (Hdb : durable m (s_disk sb)) by (apply exec_durable; exact Hd1).
-  split; [apply step_durable; exact Hdb|].
-  intros key Hin Hm. unfold s' in *. destruct e as [now' fe' fl'|now' fe' fl' k cfg' tr|cfg' tr]; cbn in Hin.
-  - exfalso. unfold run_of in Hin. eapply (proj1 (run_keeps tag m _ _ _ now' fe' fl' Hdb)); eassumption.
-  - exists cfg', tr. split; [right; eauto|]. split; [eapply restart_live_sub; exact Hin|].
-    intros Ht. eapply restart_live_excludes; [exact Ht|exact Hin|exact Hm].
-  - exists cfg', tr. split; [left; reflexivity|]. split; [eapply restart_live_sub; exact Hin|].
-    intros Ht. eapply restart_live_excludes; [exact Ht|exact Hin|exact Hm].
+  split; [exact Hd1|]. intros h e s'.
+  assert (Hdb : durable m (s_disk (exec tag s1 h))) by (apply exec_durable; exact Hd1).
+  assert (Hds : durable m (s_disk s')) by (apply step_durable; exact Hdb).
+  split; [exact Hds|].
+  intros key Hin. unfold s' in *. destruct e as [now' fe' fl'|now' fe' fl' k cfg' tr sr|cfg' tr sr]; cbn in Hin.
+  - unfold run_of in Hin. eapply (proj1 (run_keeps tag m _ _ _ now' fe' fl' Hdb)); eassumption.
+  - eapply restart_live_excludes; [exact Hds|exact Hin].
+  - eapply restart_live_excludes; [exact Hds|exact Hin].
 Qed.
